@@ -1132,3 +1132,36 @@ def mon_c12(case_line, acts):
                     and not any(e[0] == 'r' and e[2] and 'e0' == e[3][:2] for e in b.events):
                 out.append(V('first operation after a successful connect() reports Disconnected without any I/O fault'))
     return out
+
+
+# ---------------------------------------------------------------- twins: C15 (fragmentation), C13 (cancellation)
+def _wire_by_conn(acts):
+    return [bytes(c['wire']) for c in connections(acts)]
+
+
+def _delivered(acts):
+    return [a.result for a in acts if (a.result or '').startswith('ok msg')]
+
+
+def twin_c15(l1, a1, l2, a2, meta):
+    """same program, same inbound stream, different fragmentation of reads and writes: the operation results, the
+    delivered messages and the outbound byte stream must be identical"""
+    out = []
+    if len(a1) != len(a2):
+        return [V('the two runs have different numbers of actions (%d / %d)' % (len(a1), len(a2)))]
+    for i, (x, y) in enumerate(zip(a1, a2)):
+        if 'FUEL' in (x.result or '') or 'FUEL' in (y.result or '') or x.result == 'PANIC' or y.result == 'PANIC':
+            return out
+        if x.result != y.result:
+            out.append(V('action %d (code %d): result "%s" with whole reads/writes, "%s" with fragmented ones'
+                         % (i, x.code, x.result, y.result)))
+            return out
+    w1, w2 = _wire_by_conn(a1), _wire_by_conn(a2)
+    if w1 != w2:
+        k = next((i for i, (p, q) in enumerate(zip(w1, w2)) if p != q), min(len(w1), len(w2)))
+        p = w1[k] if k < len(w1) else b''
+        q = w2[k] if k < len(w2) else b''
+        j = next((i for i, (u, v) in enumerate(zip(p, q)) if u != v), min(len(p), len(q)))
+        out.append(V('outbound byte stream of connection %d differs at offset %d: …%s / …%s'
+                     % (k, j, p[max(0, j - 4):j + 8].hex(), q[max(0, j - 4):j + 8].hex())))
+    return out
